@@ -111,6 +111,14 @@ theorem roundtrip_iff (tbl : List Row) (wf : WellFormed tbl) (ix : String → Li
             simp [hi, hcov]
           simp [hcov, h _ hu]
 
+/-- non-vacuity: a table with a covered map, its index and an uncovered map; hypotheses of `roundtrip_iff` are satisfiable and the
+right-hand side is a real condition (`b` must be empty). -/
+def tblEx : List Row := [⟨"a", false, "", true, true⟩, ⟨"a.ix", true, "a", true, true⟩, ⟨"b", false, "", false, false⟩]
+example : WellFormed tblEx := by decide
+example : uncovered tblEx = ["b"] := by decide
+example : importG tblEx (fun _ es => es) (exportG tblEx (fun n => if n = "b" then [] else [("k", "v")])) "a.ix" = [("k", "v")] := by decide
+example : importG tblEx (fun _ es => es) (exportG tblEx (fun _ => [("k", "v")])) "b" = [] := by decide
+
 /-! ### the regenerated table -/
 
 def rowOf (r : Gen.Facts.PrefixRow) : Row :=
